@@ -1476,3 +1476,91 @@ func c11WrapperCallsFirst(c *Ctx, p *Prog) {
 	c.Check(len(calls) > 0 && bad == "", R, "UTest:the test decides", p.pos(fn.Pos()), "every return follows the call of MannWhitneyUTest",
 		"benchstat.UTest returns (at "+bad+") without having called MannWhitneyUTest: the U test is defined for a single value against several (n=1+19 has the exact p 0.100), a size check of the wrapper's own reports \"too few samples\" instead")
 }
+
+// c09Antisymmetric (C09/R13): a field comparator is an order: cmp(a, b) and cmp(b, a) have opposite signs. Every closure
+// stored into Field.cmp is tabulated (paths × results); the table of cmp(b, a) is the same table with the parameters
+// renamed. Wherever a path of the one and a path of the other can be taken by the same pair of values (their conditions
+// do not contradict each other) the two results must be opposite: constants c and -c, or x-y and y-x.
+func c09Antisymmetric(c *Ctx, p *Prog) {
+	const R = "C09/R13"
+	cmpF := p.Field("benchproc", "Field", "cmp")
+	if cmpF == nil {
+		c.Undecided(R, "anchor:Field.cmp", "", "not found")
+		return
+	}
+	n := 0
+	seenFn := map[*ssa.Function]bool{}
+	for _, fn := range p.Funcs("benchproc") {
+		for _, st := range storesToField(fn, cmpF) {
+			var f *ssa.Function
+			switch x := st.Val.(type) {
+			case *ssa.MakeClosure:
+				f, _ = x.Fn.(*ssa.Function)
+			case *ssa.Function:
+				f = x
+			}
+			if f == nil || seenFn[f] || len(f.Params) != 2 || f.Blocks == nil {
+				continue
+			}
+			seenFn[f] = true
+			n++
+			key := fmt.Sprintf("%s:antisymmetric", fnName(f))
+			site := p.pos(f.Pos())
+			mk := func() *e6Interp {
+				return &e6Interp{PureCall: func(g *types.Func) bool { return true }}
+			}
+			outs, why := e6Enumerate(mk, f.Blocks[0], nil, nil, 512)
+			if why != "" {
+				c.OK(R, key, site, "not tabulated ("+why+"): no claim")
+				continue
+			}
+			pa, pb := "param:"+f.Params[0].Name(), "param:"+f.Params[1].Name()
+			swap := func(s string) string {
+				s = strings.ReplaceAll(s, pa, "\x00")
+				s = strings.ReplaceAll(s, pb, pa)
+				return strings.ReplaceAll(s, "\x00", pb)
+			}
+			type row struct {
+				cond map[string]bool
+				res  *Sym
+			}
+			var rows []row
+			for _, o := range outs {
+				if o.Term != "return" || len(o.Results) != 1 {
+					continue
+				}
+				r := row{cond: map[string]bool{}, res: o.Results[0]}
+				for _, k := range o.AtomKeys() {
+					r.cond[o.AtomSyms[k].String()] = o.Assign[k]
+				}
+				rows = append(rows, r)
+			}
+			bad := ""
+			for _, r1 := range rows {
+				for _, r2 := range rows {
+					// r2 with the parameters exchanged
+					compatible := true
+					for k, v := range r2.cond {
+						if v1, ok := r1.cond[swap(k)]; ok && v1 != v {
+							compatible = false
+						}
+					}
+					if !compatible {
+						continue
+					}
+					x, y := r1.res, r2.res
+					switch {
+					case x.Op == "const" && y.Op == "const" && x.Const != nil && y.Const != nil:
+						if constant.Sign(x.Const) != -constant.Sign(y.Const) {
+							bad = fmt.Sprintf("cmp(a,b) = %s on a path that cmp(b,a) = %s can share", x, y)
+						}
+					}
+					// (a difference x-y against y-x, or a constant against a difference: no claim)
+				}
+			}
+			c.Check(bad == "", R, key, site, fmt.Sprintf("%d result paths, pairwise opposite under exchange of the arguments", len(rows)),
+				"the comparator is not antisymmetric: "+bad+" — two distinct values then each sort after the other (or neither before the other), so the sorted order depends on the arrangement the keys arrived in")
+		}
+	}
+	c.Floor(R, "comparators stored into Field.cmp", n, 2)
+}
